@@ -127,7 +127,7 @@ def sweep(ctx, budget):
 
 
 def run(ctx: Ctx) -> int:
-    ec.build_and_check_props(ctx, ["theories/Props/C01.v"])
+    ec.build_and_check_props(ctx, ["theories/Props/C01.v", "theories/Props/C01_store.v"])
     n_plans = 24 if ctx.thorough else 8
     budget = ec.Budget(900 if ctx.thorough else 120)
     shards, findings, infos, samples = {}, [], {}, []
